@@ -64,7 +64,7 @@ Proof.
 Qed.
 
 (** Without parameter changes the last term is the one MaxSupply. *)
-Definition is_mset_params (o : mop) : bool := match o with MSetParams _ _ _ => true | _ => false end.
+Definition is_mset_params (o : mop) : bool := match o with MSetParams _ _ _ _ => true | _ => false end.
 
 Lemma mstep_keeps_max W o : is_mset_params o = false -> w_max (fst (mstep W o)) = w_max W.
 Proof.
